@@ -71,6 +71,29 @@ def r18_1(duke, R, spec):
                                nontrivial=ch in "VAEGHKLMNOPQRTUWXY;()[/.")
                     else:
                         R.inst("R18.1", "read-terminal:%s:%r" % (_pos_of(m), ch), name == want, sp=m["sp"], expect=want, got=name)
+            # the text between `L` and `;` must be validated as an *object* class name in both positions (JVMS 4.3.2: ClassName,
+            # not an array descriptor); ArrayType::Object stores a ClassName, so a ClassName::try_from would type-check too
+            for m in ms:
+                arm = None
+                for a in m["arms"]:
+                    try:
+                        vals = H.pat_int_values(a["pat"])
+                    except ValueError:
+                        vals = None
+                    if vals and ord("L") in vals:
+                        arm = a
+                convs = []
+                if arm is not None:
+                    for n in H.walk(arm["body"]):
+                        if n.get("k") in ("call", "mcall") and H.callee_name(n) in ("try_from", "try_into", "from_inner_unchecked", "from_inner", "new_unchecked"):
+                            c = n.get("callee") or {}
+                            target = c.get("self_ty") or c.get("impl_ty") or ""
+                            if H.callee_name(n) == "try_into":
+                                target = n.get("ty") or ""
+                            convs.append(target)
+                okc = bool(convs) and all("ObjClassName" in t for t in convs)
+                R.inst("R18.1", "object-name-validated-as-ObjClassName:%s" % _pos_of(m), okc, sp=(arm or m)["sp"], got=convs,
+                       expect="the name between `L` and `;` goes through ObjClassName::try_from (rejects empty names, '.', ';', '[' and array names)")
         # the 255 guard dominates the increment of the dimension counter
         incs = [n for n in H.walk(rft["body"]) if n.get("k") == "assignop" and n["op"] in ("+", "+=")]
         ok = False
